@@ -69,6 +69,11 @@ func getDistillationFunc(dm *model.DecisionMaker) *utils.LinearFunctionParameter
 	} else {
 		parameters := utils.LinearFunctionParameters{}
 		utils.DecodeToStruct(params, &parameters)
+		// the cut level must not grow: with a function that is negative somewhere on [0,1]
+		// the distillation recurses without progress until the stack overflows
+		if parameters.B < 0 || parameters.A+parameters.B < 0 {
+			panic(fmt.Errorf("distillation function must not be negative for credibility in [0,1], got a=%v, b=%v", parameters.A, parameters.B))
+		}
 		return &parameters
 	}
 }
